@@ -183,11 +183,13 @@ def basePoint : Point :=
 /-- k·P, double-and-add from the most significant bit (structural on the bit count).
     Used for `GeScalarMultBase` (the code uses a signed radix-16 table of multiples of B;
     B is on the curve, so only the group element matters). -/
-def smulAux (a : Point) : Nat → Nat → Point
-  | 0, _ => Point.zero
+def daWith {P : Type} (zero : P) (dbl : P → P) (add : P → P → P) (a : P) : Nat → Nat → P
+  | 0, _ => zero
   | n + 1, k =>
-    let r := dbl (smulAux a n (k / 2))
+    let r := dbl (daWith zero dbl add a n (k / 2))
     if k % 2 = 1 then add r a else r
+
+def smulAux (a : Point) (n k : Nat) : Point := daWith Point.zero dbl add a n k
 
 /-! #### `slide` + `GeDoubleScalarMultVartime` (sliding window, exactly as in the code) -/
 
